@@ -100,6 +100,7 @@ package csi
 
 //@ func makeOffset
 //@   inline
+//@ table csiMagic
 
 //@ func readChunks
 //@   mode bv
